@@ -534,6 +534,11 @@ pub fn extract_to_dir<RS: Read + Seek + HasLength>(
             } else {
                 &file
             };
+            if !is_enclosed_name(new_file_name) {
+                // absolute or climbing out of target_dir: never extracted (see enclosed_name() below) and
+                // target_dir.join() would point at a foreign file, so it must not be reported as existing either
+                continue;
+            }
             let target_file = target_dir.join(new_file_name);
             if !target_file.exists() {
                 files_filter.push(file); // need the unmapped name here
@@ -688,6 +693,24 @@ pub fn extract_to_dir<RS: Read + Seek + HasLength>(
             "no libarchive support or corrupt zip file",
         ))
     }
+}
+
+/// true if `name` is a relative path that never climbs above its starting directory
+/// (same rule as zip's `enclosed_name`)
+fn is_enclosed_name(name: &str) -> bool {
+    let mut depth = 0usize;
+    for component in Path::new(name).components() {
+        match component {
+            std::path::Component::Prefix(_) | std::path::Component::RootDir => return false,
+            std::path::Component::ParentDir => match depth.checked_sub(1) {
+                Some(d) => depth = d,
+                None => return false,
+            },
+            std::path::Component::Normal(_) => depth += 1,
+            std::path::Component::CurDir => (),
+        }
+    }
+    true
 }
 
 // taken from an older version of rust std::io::copy...
